@@ -4,6 +4,7 @@ from .macros import *
 from . import macros as mac
 from .lifecycle import *
 
+PER_TARGET = True      # every rule below looks at one target configuration at a time (check.py may fork one worker per target)
 NEEDS_WS = True
 DECIDED = ("on the MIR of one generated instantiation per fake! arm that has `times` (arms enumerated from rustc's parse of the macro): R6.1 "
            "exactly one atomic read-modify-write (fetch_add by 1) of the arm's counter on an admitted or over-budget call and no separate "
